@@ -18,7 +18,8 @@ RULE = (
     "cases = schedules over the alphabet {R issue request (new concurrent caller), A answer oldest outstanding request"
     " whole, P answer it in 3 pieces, H answer only headers+half body, E send EVENT, F EVENT+response in one write,"
     " G response+EVENT in one write, C cancel oldest live caller, T advance virtual time 31 s, X peer closes, U"
-    " unsolicited response while idle}: ALL sequences of the bounded depth that start with R, plus seeded random"
+    " unsolicited response while idle, Z request sent into a connection the peer then resets (no EOF, connection_lost"
+    " with an error)}: ALL sequences of the bounded depth that start with R, plus seeded random"
     " schedules of depth 8-30; alternately through HomeKitConnection.get and IpPairing.get_characteristics. After each"
     " action the loop is run to quiescence; at the end virtual time advances 30 s x (requests+1). Distinct by (schedule,"
     " api); non-trivial = the schedule contains at least one fault/interleaving action besides R/A."
@@ -33,9 +34,9 @@ ASSUMPTIONS = [
 SHARDS = {"quick": 16, "thorough": 16}
 TIMEOUT = {"quick": 900, "thorough": 7200}
 MIN_CASES = {"quick": 5000, "thorough": 100000}
-REQUIRED_COUNTERS = ["requests_completed_with_own_response", "requests_failed_disconnected", "callers_cancelled", "events_delivered", "timeouts_fired", "stale_answers_dropped", "reconnects"]
+REQUIRED_COUNTERS = ["requests_completed_with_own_response", "requests_failed_disconnected", "callers_cancelled", "events_delivered", "timeouts_fired", "stale_answers_dropped", "reconnects", "connections_abandoned", "peer_resets"]
 
-ALPHABET = "RAPHEFGCTXU"
+ALPHABET = "RAPHEFGCTXUZ"
 
 
 class Scenario:
@@ -97,6 +98,7 @@ class Scenario:
         from vf import vloop
 
         ctx = self.ctx
+        must_abandon = []
         if a == "R":
             self.issue()
         elif a in "APHFG":
@@ -139,14 +141,24 @@ class Scenario:
             if conn is not None and not any(r["conn"] is conn and r["answered"] == 1 for r in self.received):
                 conn.send(self.event_plain(conn))
         elif a == "C":
-            for rq in self.reqs.values():
+            for uid, rq in self.reqs.items():
                 if not rq["task"].done():
                     rq["cancelled"] = True
                     rq["task"].cancel()
+                    must_abandon = [r["conn"] for r in self.received if r["id"] == uid and r["answered"] < 2 and r["conn"].is_open]
                     break
         elif a == "T":
+            must_abandon = [r["conn"] for r in self.received if r["answered"] < 2 and r["conn"].is_open and not self.reqs[r["id"]]["task"].done()]
             await asyncio.sleep(31)
             ctx.count("time_jumps")
+        elif a == "Z":
+            conn = self.newest_open_secure()
+            if conn is not None and not any(r["conn"] is conn and r["answered"] == 1 for r in self.received):
+                conn.transport.pause_reading()
+                self.issue()
+                await vloop.settle()
+                conn.transport.abort()
+                ctx.count("peer_resets")
         elif a == "X":
             conn = self.newest_open_secure()
             if conn is not None:
@@ -158,6 +170,16 @@ class Scenario:
                 conn.send(conn.http(200, body, "application/hap+json"))
                 ctx.count("unsolicited_sent")
         await vloop.settle()
+        # a request that timed out / was cancelled while in flight: its connection must have been abandoned
+        for conn in must_abandon:
+            if conn.is_open:
+                self.ctx.violation(
+                    "connection-not-abandoned-after-" + ("timeout" if a == "T" else "cancel"),
+                    f"after action {a} in schedule {self.schedule}: accessory still sees connection {conn.index} open",
+                    {"schedule": self.schedule, "api": self.api},
+                )
+            else:
+                ctx.count("connections_abandoned")
 
     # ---- controller side ---------------------------------------------------------------------------
     def issue(self):
@@ -260,7 +282,7 @@ class Scenario:
                 ctx.violation("event-stream-corrupted", f"listener values {vals} vs sent {self.events_sent}", replay)
             ctx.count("reconnects", max(0, len([c for c in w.accessory.conns if c.secure]) - 1))
             if "T" in self.schedule:
-                ctx.count("timeouts_fired", sum(1 for e in w.net.controller_transports for x in e.vf_log if x[1] == "write_eof"))
+                ctx.count("timeouts_fired", sum(1 for rq in self.reqs.values() if rq["exc"] is not None and "Timeout while waiting" in str(rq["exc"])))
             for cap in asyncio.get_running_loop().captured:
                 ctx.count("loop_exception_" + str(cap["exception_type"]))
                 ctx.notes.setdefault("loop_exception_examples", {}).setdefault(str(cap["exception_type"]), f"{cap['message']}: {cap['exception']!r}")
@@ -271,7 +293,7 @@ class Scenario:
 
 
 def nontrivial(schedule: str) -> bool:
-    return any(ch in schedule for ch in "PHEFGCTXU")
+    return any(ch in schedule for ch in "PHEFGCTXUZ")
 
 
 async def run_one(ctx, schedule: str, api: str, key) -> None:
@@ -304,7 +326,7 @@ def run(ctx) -> None:
         rng = ctx.rng("C08.random")
         for k in range(ctx.pick(4000, 60000) // ctx.nshards):
             n = rng.randint(6, 30)
-            schedule = "R" + "".join(rng.choice("RRRAAPHEFGCTXU") for _ in range(n))
+            schedule = "R" + "".join(rng.choice("RRRAAPHEFGCTXUZ") for _ in range(n))
             await run_one(ctx, schedule, rng.choice(["connection", "connection", "pairing"]), ("rand", ctx.shard, k))
 
     vloop.run(main())
